@@ -441,6 +441,10 @@ func doScript(r *vx.Run, in input) {
 	}()
 	if pan != "" {
 		r.FailP("C09", "txtoscript:panic", in, pan, size)
+		if allValid(in.Postings) && size > 0 {
+			// RevertTransaction runs exactly this call on the reversed postings of the transaction (force = Unbounded)
+			r.FailP("C10", "revert:panic-building-the-inverse", in, pan, size)
+		}
 		r.Case("", in, "", false)
 		return
 	}
@@ -467,6 +471,10 @@ func doScript(r *vx.Run, in input) {
 		case ob.Stage == "done":
 			if d := diffClass(ob.Postings, in.Postings); d != "" {
 				r.FailP("C09", "exact:"+d, in, fmt.Sprintf("committed %v for request %v", showPostings(ob.Postings), in.Postings), size)
+				if valid {
+					// these postings read as the reversed postings of a committed transaction: this is the run its revert does
+					r.FailP("C10", "revert:committed-postings-are-not-the-inverse:"+d, in, fmt.Sprintf("committed %v for inverse %v", showPostings(ob.Postings), in.Postings), size)
+				}
 			}
 			if !metaEqual(ob.ResMeta, metaOf(in)) {
 				r.FailP("C09", "metadata:not-passed-through", in, fmt.Sprintf("%v vs %v", ob.ResMeta, in.Metadata), size)
@@ -475,10 +483,12 @@ func doScript(r *vx.Run, in input) {
 				r.FailP("C09", "validation:invalid-posting-committed", in, "", size)
 			} else if !covered(in.Postings, in.Balances, in.Unbounded) {
 				r.FailP("C09", "funds:uncovered-posting-committed", in, "", size)
+				r.FailP("C10", "revert:unforced-revert-overdraws", in, "", size)
 			}
 		default:
 			if valid && covered(in.Postings, in.Balances, in.Unbounded) {
 				r.FailP("C09", "rejection:valid-covered-request-rejected:"+ob.Stage+":"+ob.Class, in, "", size)
+				r.FailP("C10", "revert:covered-inverse-refused:"+ob.Stage+":"+ob.Class, in, "", size)
 			}
 		}
 	}
